@@ -16,7 +16,7 @@ ASSUMPTIONS = ['cooperative scheduling only (see stubs)']
 
 # (wire payload, decoded payload) for MESSAGE packets
 PAY = (('hello', 'hello'), ('', ''), ('{"a":[1,"x"]}', {'a': [1, 'x']}), ('12', '12'), ('"s"', 's'), ('null', None),
-       ('true', 'true'), ('\xe9€', '\xe9€'))
+       ('true', 'true'), ('\xe9€', '\xe9€'), ('a b+c&d=e%20f', 'a b+c&d=e%20f'), ('{"k": "v w", "n": [1, 2]}', {'k': 'v w', 'n': [1, 2]}))
 BIN = ('bAAH/', b'\x00\x01\xff')
 
 
@@ -78,7 +78,7 @@ def _events_ok(got, prefix, allm, ordered, ending):
     return all(_same(x, y) for x, y in zip(got, allm))
 
 
-def _dispatch_polling(fl, ah, pending, spec):
+def _dispatch_polling(fl, ah, pending, spec, form=False):
     sut = mk(fl, async_handlers=ah)
     try:
         r0 = sut.open('polling')
@@ -95,11 +95,16 @@ def _dispatch_polling(fl, ah, pending, spec):
             poll = sut.get(sid)
             sut.settle()
         n_before = len(sut.events)
-        post = sut.post(sid, body)
+        if form:
+            # the form-encoded variant of the same body, as JSONP-polling browsers POST it (spaces as '+')
+            import urllib.parse
+            post = sut.post(sid, 'd=' + urllib.parse.quote_plus(body), extra='&j=0')
+        else:
+            post = sut.post(sid, body)
         sut.settle()
         got = [a for kind, s, a in sut.events[n_before:] if kind == 'message']
         others = [(kind, s) for kind, s, a in sut.events[n_before:] if kind != 'message']
-        st = dict(flavour=sut.flavour, pending=bool(pending), ending=ending, handlers='async' if ah else 'sync')
+        st = dict(flavour=sut.flavour, pending=bool(pending), ending=ending, handlers='async' if ah else 'sync', form=bool(form))
         if spec == []:
             # an empty body is accepted and does nothing
             if got or sut.status(post) != 200:
@@ -191,7 +196,7 @@ _T1 = (4, 1, 7, 3, 5, 0, 2, 6, 8, 9)
 
 @cond(quick=dict(timeout=170, T=6, K=0, parts=dict(FL=[0, 1], AH=[0, 1])),
       thorough=dict(timeout=1200, T=10, K=8, parts=dict(FL=[0, 1], AH=[0, 1], PEND=[0, 1])))
-def polling_two(fl: int, ah: int, pending: bool, n: int, t0: int, k0: int, b: int, k1: int) -> str:
+def polling_two(fl: int, ah: int, pending: bool, n: int, t0: int, k0: int, b: int, k1: int, form: bool) -> str:
     """
     pre: fl == P.FL and ah == P.AH and 0 <= n <= 2 and 0 <= t0 <= 9 and 0 <= b < P.T and 0 <= k1 <= P.K
     pre: ((t0 == 4 and 0 <= k0 <= len(PAY)) or (t0 != 4 and k0 == 0)) and (_T1[b] == 4 or k1 == 0)
@@ -201,7 +206,7 @@ def polling_two(fl: int, ah: int, pending: bool, n: int, t0: int, k0: int, b: in
     # first packet: any type 0-9 with any table payload (text, JSON, integer-looking, empty, binary); second packet
     # from the type table (quick: MESSAGE, CLOSE, 7, PONG, UPGRADE, OPEN; thorough: all ten types with payloads)
     spec = [(t0, k0), (_T1[b], k1)][:n]
-    return verdict(_dispatch_polling(fl, bool(ah), pending, spec))
+    return verdict(_dispatch_polling(fl, bool(ah), pending, spec, form))
 
 
 @cond(quick=dict(timeout=170, T=4, K=0, parts=dict(FL=[0, 1], AH=[0, 1])),
